@@ -90,6 +90,10 @@ fn gen(rng: &mut Rng, n: usize, tier: &str) -> Vec<Req> {
         let sc = sr::f4_witness(ver);
         emit_resolve(&mut out, rng, &sc, "f4witness");
     }
+    // creator's power event before the first power-levels event vs a moderator's (deterministic cells)
+    for sc in sr::early_creator_cells() {
+        emit_resolve(&mut out, rng, &sc, "earlycreator");
+    }
     // exhaustive: all labelled DAGs on <= 4 (quick) / <= 5 (thorough) nodes x all 3^n key assignments
     let max_n = if thorough { 5 } else { 4 };
     for nn in 1..=max_n {
